@@ -152,17 +152,21 @@ func pure(acc *ev.Acc) {
 // ---------------------------------------------------------------- WaitTimeout
 
 type WT struct {
-	Calls     int    `json:"calls"`           // consecutive WaitTimeout calls by the waiter (1 or 2)
-	Timeout   uint64 `json:"timeout"`         // ms
-	Timers    string `json:"timers"`          // "all", "none", "first" (only the first call's timer may fire)
-	Signaller string `json:"signaller"`       // "", "signal", "broadcast", "signal-unlocked"
-	Other     bool   `json:"other,omitempty"` // another goroutine is already parked in a plain Wait loop on the same condition variable
+	Calls     int    `json:"calls"`            // consecutive WaitTimeout calls by the waiter (1 or 2)
+	Timeout   uint64 `json:"timeout"`          // ms
+	Timers    string `json:"timers"`           // "all", "none", "first" (only the first call's timer may fire)
+	Signaller string `json:"signaller"`        // "", "signal", "broadcast", "signal-unlocked"
+	Other     bool   `json:"other,omitempty"`  // another goroutine is already parked in a plain Wait loop on the same condition variable
+	Other2    bool   `json:"other2,omitempty"` // another goroutine waits with WaitTimeout on the same condition variable (its own timer)
 }
 
 func (w WT) ID() string {
 	id := fmt.Sprintf("wt:calls=%d,timeout=%d,timers=%s,sig=%s", w.Calls, w.Timeout, w.Timers, w.Signaller)
 	if w.Other {
 		id += ",other-waiter"
+	}
+	if w.Other2 {
+		id += ",other-timed-waiter"
 	}
 	return id
 }
@@ -172,6 +176,7 @@ func wtCase(w WT, bound int, deadline time.Time) mcx.Case {
 		var returned int
 		var problems []string
 		var waiterDone, sigDone bool
+		other2Done := !w.Other2
 		var heldOnReturn []bool
 		body := func() {
 			timeshim.Reset()
@@ -198,6 +203,22 @@ func wtCase(w WT, bound int, deadline time.Time) mcx.Case {
 						cond.Wait()
 					}
 					mu.Unlock()
+				})
+			}
+			if w.Other2 {
+				// a second timed waiter: it must come back too (by the signal, the broadcast or its own timer)
+				wg.Add(1)
+				csched.Go(func() {
+					defer wg.Done()
+					mu.Lock()
+					for c := 0; c < 1 && !flag; c++ {
+						machine.WaitTimeout(cond, w.Timeout+1)
+						if !mu.Held() {
+							problems = append(problems, "the second timed waiter's WaitTimeout returned without the lock held")
+						}
+					}
+					mu.Unlock()
+					other2Done = true
 				})
 			}
 			wg.Add(1)
@@ -264,6 +285,9 @@ func wtCase(w WT, bound int, deadline time.Time) mcx.Case {
 			if p := mcx.ThreadPanics(s); p != "" {
 				return "panic", p, outcome
 			}
+			if waiterDone && !other2Done {
+				return "stuck", fmt.Sprintf("the second timed waiter's WaitTimeout never returned (timers fired: %d; signaller done: %v); blocked: %v", timeshim.Fired, sigDone, s.BlockedDesc), outcome
+			}
 			if !waiterDone {
 				// the waiter never returned: is that allowed?  Only if no event that must wake it happened.
 				why := fmt.Sprint(s.BlockedDesc)
@@ -302,6 +326,10 @@ func wtCases(tier string) []WT {
 		out = append(out, WT{Calls: 2, Timeout: to, Timers: "all", Other: true})
 		out = append(out, WT{Calls: 1, Timeout: to, Timers: "none", Signaller: "broadcast", Other: true})
 		out = append(out, WT{Calls: 1, Timeout: to, Timers: "all", Signaller: "broadcast", Other: true})
+		if to == 0 {
+			// two timed waiters on one condition variable: a signal for one of them, each has its own timer
+			out = append(out, WT{Calls: 1, Timeout: to, Timers: "all", Signaller: "signal", Other2: true})
+		}
 	}
 	return out
 }
@@ -357,7 +385,11 @@ func main() {
 		}
 		for k, c := range cases {
 			if k%n == i {
-				mcx.Explore(wtCase(c, bound, start.Add(20*time.Minute)), acc)
+				b := bound
+				if c.Other2 && b > 1 {
+					b-- // two timed waiters (four threads + two timers): one deviation less
+				}
+				mcx.Explore(wtCase(c, b, start.Add(20*time.Minute)), acc)
 			}
 		}
 		acc.EmitChild()
